@@ -189,11 +189,20 @@ where
         .collect();
 
     // Sort by distance (ascending)
-    results.sort_by(|a, b| a.1.partial_cmp(&b.1).unwrap_or(std::cmp::Ordering::Equal));
+    results.sort_by(|a, b| cmp_distance(a.1, b.1));
 
     // Truncate to k
     results.truncate(k);
     results
+}
+
+/// Total order on distances: ascending, NaN after every number.
+///
+/// Treating an incomparable (NaN) distance as equal to everything is not a
+/// consistent order and leaves nearer vectors behind farther ones.
+fn cmp_distance(a: f32, b: f32) -> std::cmp::Ordering {
+    a.partial_cmp(&b)
+        .unwrap_or_else(|| a.is_nan().cmp(&b.is_nan()))
 }
 
 /// Performs brute-force k-nearest neighbor search with a filter predicate.
@@ -227,7 +236,7 @@ where
         .map(|(id, vec)| (id, compute_distance(query, vec, metric)))
         .collect();
 
-    results.sort_by(|a, b| a.1.partial_cmp(&b.1).unwrap_or(std::cmp::Ordering::Equal));
+    results.sort_by(|a, b| cmp_distance(a.1, b.1));
     results.truncate(k);
     results
 }
